@@ -1,1 +1,32 @@
 pub mod problems;
+
+use mahf::{state::common::Populations, Individual, Problem, Random, State};
+
+/// A state holding a population stack (bottom..top) and a seeded random generator.
+pub fn state_with<P: Problem>(pops: Vec<Vec<Individual<P>>>, seed: u64) -> State<'static, P> {
+    let mut state: State<P> = State::new();
+    let mut ps = Populations::<P>::new();
+    for p in pops {
+        ps.push(p);
+    }
+    state.insert(ps);
+    state.insert(Random::new(seed));
+    state
+}
+
+/// Solutions of every population, bottom..top.
+pub fn stack_solutions<P: Problem>(state: &State<P>) -> Vec<Vec<P::Encoding>> {
+    let ps = state.populations();
+    (0..ps.len()).rev().map(|d| ps.peek(d).iter().map(|i| i.solution().clone()).collect()).collect()
+}
+
+pub fn is_permutation(v: &[usize]) -> bool {
+    let mut seen = vec![false; v.len()];
+    for &x in v {
+        if x >= v.len() || seen[x] {
+            return false;
+        }
+        seen[x] = true;
+    }
+    true
+}
